@@ -1,3 +1,4 @@
+import itertools
 import torch
 
 from ..domain import Domain, BoundaryDomain
@@ -191,16 +192,20 @@ class Rotate(Domain):
         # domain_bounds are in shape [x_min, x_max, y_min, y_max, ...]
         # both min and max have to be shifted by the same value
         domain_bounds = domain_bounds - translation_values
-        rotated_min = torch.matmul(rotation_matrix, domain_bounds[:, ::2].unsqueeze(-1))
-        rotated_min = rotated_min.squeeze(-1)
-        rotated_max = torch.matmul(
-            rotation_matrix, domain_bounds[:, 1::2].unsqueeze(-1)
+        # rotate all corners of the box, not only the minimal and maximal one
+        use_max = torch.tensor(
+            list(itertools.product([False, True], repeat=self.space.dim)), device=device
         )
-        rotated_max = rotated_max.squeeze(-1)
+        corners = torch.where(
+            use_max[None], domain_bounds[:, None, 1::2], domain_bounds[:, None, ::2]
+        )
+        rotated_corners = torch.matmul(
+            rotation_matrix.unsqueeze(1), corners.unsqueeze(-1)
+        ).squeeze(-1)
         domain_bounds = torch.zeros(
-            (len(rotated_min), 2 * self.space.dim), device=device
+            (len(rotated_corners), 2 * self.space.dim), device=device
         )
-        domain_bounds[:, ::2] = torch.min(rotated_min, rotated_max)
-        domain_bounds[:, 1::2] = torch.max(rotated_min, rotated_max)
+        domain_bounds[:, ::2] = torch.min(rotated_corners, dim=1).values
+        domain_bounds[:, 1::2] = torch.max(rotated_corners, dim=1).values
         domain_bounds = domain_bounds + translation_values
         return domain_bounds.squeeze(0)
